@@ -124,11 +124,18 @@ def ensure_pycode(repo=None, verbose=True):
                 f.write(th)
             if verbose:
                 print('[dst] generated pycode for tree %s in %.1fs' % (th, time.time() - t0))
-        # drop generated code of other trees (disk is limited), keep the two most recent
-        others = sorted((d for d in os.listdir(WORK) if d.startswith('home-') and d != 'home-' + th),
-                        key=lambda d: os.path.getmtime(os.path.join(WORK, d)))
-        for d in others[:-2]:
-            shutil.rmtree(os.path.join(WORK, d), ignore_errors=True)
+        # mark this home as in use, and drop generated code of other trees that no check has used for three hours
+        # (each is < 1 MB; a count-based limit removed homes under checks that were still running on another tree)
+        os.utime(done, None)
+        now = time.time()
+        for d in os.listdir(WORK):
+            if d.startswith('home-') and d != 'home-' + th:
+                mark = os.path.join(WORK, d, '.done')
+                try:
+                    if now - os.path.getmtime(mark if os.path.isfile(mark) else os.path.join(WORK, d)) > 3 * 3600:
+                        shutil.rmtree(os.path.join(WORK, d), ignore_errors=True)
+                except OSError:
+                    pass
     finally:
         fcntl.flock(lock, fcntl.LOCK_UN)
         lock.close()
